@@ -23,6 +23,8 @@ CLAIM = {
          'Verus contracts on extracted real text, reply obligations as preconditions of the emission points'),
  'C17': ('Deductive proof (Verus, unbounded: any segment list, any cursor position, any byte counts) with the dirty bitmap as ghost state (the log of addresses passed to Bitmap::mark_dirty, threaded as an erased token through the real text): every writer operation on the virtio-fs transport - IoBuffers::consume / consume_for_write, VirtioFsWriter::write, write_from, write_from_at, write_all_from - appends exactly the addresses it filled (the prefix of the reply space its callback reported, for write proved of the real closure text with the raw copy abstracted by a model call); failed or refused operations, every Reader operation, split_at and commit append nothing, so request buffers and unused reply space are never marked; split writers mark through the same contract because split_at yields cursors over exactly the two address ranges.',
          'Verus contracts on extracted real text with a ghost dirty log (rule R23)'),
+ 'C20': ('Deductive proof (Verus, every request byte string, reply capacity and filesystem result) that the asynchronous path meets THE SAME contracts as the synchronous one: the real text of Server::async_handle_message, the ten async handlers and the async reply helpers (rule R18: async fn as fn, .await as a call) is verified against the very clauses unit `server` proves for their sync twins - reused, not copied - over one shared specification (reply_msg / want_msg and the per-opcode functions). So for every request both paths may invoke only the one operation the protocol names, with exactly the decoded arguments and the translated caller, and may emit only the specified reply bytes, at most once and never for FORGET / BATCH_FORGET; over-long messages, unknown opcodes and the 37 opcodes the async dispatcher hands to the sync handlers fall under the same clauses. FuseDevWriter::async_commit is checked against the commit model. What the specification leaves open (which error a malformed request gets) is not decided.',
+         'Verus contracts on extracted real text (rule R18), contracts shared with the sync unit'),
  'C18': ('Deductive proof (Verus, unbounded over all u64/i32/u32 arguments and flag words) on the real text: (1) PassthroughFs::seal_size_check lets a request through exactly when it is a write or a size-keeping fallocate that stays within the current file size and refuses everything else with the prescribed errno; (2) the call sites: with host system calls as capability-guarded externals, on a sealed export PassthroughFs::write can reach the host write only for an empty write or one that ends within the fstat size on a descriptor not in append mode (the request flags are applied to the descriptor by check_fd_flags, also under contract), fallocate only with a size-keeping mode inside the file, setattr never reaches ftruncate and fails whenever FATTR_SIZE is set, and open_inode (every re-open for I/O: OPEN, CREATE of an existing name, truncate by path) never passes O_TRUNC to the kernel. Kernel semantics of the system calls are assumptions.',
          'Verus contracts on extracted real text; host system calls as capability-guarded external functions'),
  'C06': ('Deductive proof (Verus, names of any length) of the name gate on the real text: the predicates is_dot_or_dotdot / is_safe_path_component / validate_path_component equal "no slash, not . or ..", PassthroughFs::validate_path_component applies them iff it runs standalone, PassthroughFs::lookup and Vfs::lookup refuse names with a slash, and every VFS operation that creates, removes, renames or links a name returns EINVAL for an unsafe name and holds no capability to call any backend in that case (a call placed before the check fails its precondition).',
@@ -40,7 +42,6 @@ NA = {
  'C11': 'overlay on-disk state across restart / copy-up: oracle is a filesystem model and the on-disk state after restart; same code as C10',
  'C15': 'observable is the process fd table and Arc/File drops behind RwLock<BTreeMap> + Mutex<HashMap>; nothing is a per-call postcondition a verifier can see',
  'C19': 'serialisation is generated by versionize_derive (proc-macro, feature off); restoration rebuilds an Arc/HashMap graph through ArcSwap stores',
- 'C20': 'async fn bodies (neither tool verifies them), feature off, and the property is relational over two whole dispatchers',
 }
 PENDING = 'not yet built in this framework (under construction; see DESIGN.md section 5)'
 
